@@ -102,10 +102,11 @@ class DistRegular(E2Contract):
                     out["marg"][order] = (m.ps, m.shape)
         # conditionals on every non-empty proper subset, first / last assignment
         for r in range(1, nv):
-            for cv in itertools.combinations(range(nv), r):
-                for vals in {tuple(0 for _ in cv), tuple(cfg[v] - 1 for v in cv)}:
-                    c = dist.conditionalize(list(cv), list(vals))
-                    out["cond"][(cv, vals)] = (c.ps, c.shape)
+            for cv0 in itertools.combinations(range(nv), r):
+                for cv in {cv0, tuple(reversed(cv0))}:          # conditioning variables listed in either order
+                    for vals in {tuple(0 for _ in cv), tuple(cfg[v] - 1 for v in cv), tuple((cfg[v] - 1) if i % 2 else 0 for i, v in enumerate(cv))}:
+                        c = dist.conditionalize(list(cv), list(vals))
+                        out["cond"][(cv, vals)] = (c.ps, c.shape)
         return out
 
     def post(self, W, cfg, inp, out):
